@@ -1,2 +1,210 @@
-(** placeholder until the proofs land *)
-Require Import JF.Model.Occupancy JF.Model.FactorMap.
+(** * C10 — Cell-based and file-based factor decompositions cover each partner exactly once.
+    Models: Model/Occupancy.v (occupancy + the cell taggers + the cell-veto target lookup), Model/FactorMap.v
+    (factor-file parser, factor type maps, FactorTypeMapInStateTagger).
+    Proofs: Proofs/OccupancyProofs.v, Proofs/FactorMapProofs.v.  [occ_inv] is the C11 invariant. *)
+From Coq Require Import List ZArith Bool Permutation.
+Require Import JF.Model.Occupancy JF.Model.FactorMap JF.Proofs.OccupancyProofs JF.Proofs.FactorMapProofs.
+Import ListNotations.
+
+(** ** Cell part.  [cellsys_ok cs]: duplicate-free cells and nearby lists, translate/relative inverse to each other
+    on the cells of the system, nearby relation translation invariant (decidable: [cellsys_ok_b_sound]). *)
+
+(** cell-veto targets (occupants of the cells reached from the walker's items) ++ nearby targets (explicit pair
+    events with the occupants of nearby cells) ++ surplus targets = all relevant units except the active one,
+    as multisets: nobody is missed, nobody is treated twice *)
+Theorem cells_partition :
+  forall (cell id : Type) (cell_eqb : cell -> cell -> bool) (id_eqb : id -> id -> bool),
+    (forall a b : cell, cell_eqb a b = true <-> a = b) ->
+    forall cs : cellsys cell, cellsys_ok cs ->
+    forall (units : list id) (cellof : id -> cell),
+      (forall u, In u units -> In (cellof u) (cs_cells cs)) ->
+      forall (s : state cell id) (a : id),
+        occ_inv cell_eqb id_eqb (cs_cells cs) s units cellof ->
+        active_id s = Some a ->
+        Permutation (cell_veto_targets cell_eqb cs s ++ nearby_targets cell_eqb cs s ++ surplus_targets s)
+                    (others id_eqb s units).
+Proof. exact OccupancyProofs.cells_partition. Qed.
+Print Assumptions cells_partition.
+
+(** the same element-wise: the concatenation is duplicate-free and contains exactly the other relevant units *)
+Theorem cells_partition_nodup :
+  forall (cell id : Type) (cell_eqb : cell -> cell -> bool) (id_eqb : id -> id -> bool),
+    (forall a b : cell, cell_eqb a b = true <-> a = b) ->
+    (forall a b : id, id_eqb a b = true <-> a = b) ->
+    forall cs : cellsys cell, cellsys_ok cs ->
+    forall (units : list id) (cellof : id -> cell),
+      NoDup units ->
+      (forall u, In u units -> In (cellof u) (cs_cells cs)) ->
+      forall (s : state cell id) (a : id),
+        occ_inv cell_eqb id_eqb (cs_cells cs) s units cellof ->
+        active_id s = Some a ->
+        NoDup (cell_veto_targets cell_eqb cs s ++ nearby_targets cell_eqb cs s ++ surplus_targets s)
+        /\ (forall u, In u (cell_veto_targets cell_eqb cs s ++ nearby_targets cell_eqb cs s ++ surplus_targets s)
+                      <-> In u units /\ u <> a).
+Proof. exact OccupancyProofs.cells_partition_nodup. Qed.
+Print Assumptions cells_partition_nodup.
+
+(** the cell-bounding family (CellBoundingPotentialTagger: one in-state per non-empty cell that is not nearby)
+    treats the same units as the cell-veto family *)
+Theorem cell_bounding_same_targets :
+  forall (cell id : Type) (cell_eqb : cell -> cell -> bool) (id_eqb : id -> id -> bool),
+    (forall a b : cell, cell_eqb a b = true <-> a = b) ->
+    forall cs : cellsys cell, cellsys_ok cs ->
+    forall (units : list id) (cellof : id -> cell),
+      (forall u, In u units -> In (cellof u) (cs_cells cs)) ->
+      forall (s : state cell id) (a : id),
+        occ_inv cell_eqb id_eqb (cs_cells cs) s units cellof ->
+        active_id s = Some a ->
+        Permutation (bounding_targets cell_eqb cs s) (cell_veto_targets cell_eqb cs s).
+Proof. exact OccupancyProofs.cell_bounding_same_targets. Qed.
+Print Assumptions cell_bounding_same_targets.
+
+(** every walker item of the cell-veto handler is a key of its bound table *)
+Theorem veto_keys_consistent :
+  forall (cell : Type) (cell_eqb : cell -> cell -> bool) (cs : cellsys cell),
+    cellsys_ok cs -> veto_keys cell_eqb cs = veto_domain cell_eqb cs.
+Proof. exact OccupancyProofs.veto_keys_consistent. Qed.
+Print Assumptions veto_keys_consistent.
+
+(** [cellsys_ok] can be decided by computation for a concrete cell system *)
+Theorem cellsys_ok_decidable :
+  forall (cell : Type) (cell_eqb : cell -> cell -> bool),
+    (forall a b : cell, cell_eqb a b = true <-> a = b) ->
+    forall cs : cellsys cell, cellsys_ok_b cell cell_eqb cs = true -> cellsys_ok cs.
+Proof. exact OccupancyProofs.cellsys_ok_b_sound. Qed.
+Print Assumptions cellsys_ok_decidable.
+
+(** ** File part.  [f]: the parsed non-comment lines of a factor file, [n]: point masses per composite object,
+    [nroot]: number of composite objects, active point mass (r, a). *)
+
+(** a well-formed file is accepted by the parser *)
+Theorem wf_file_loads :
+  forall (n : Z) (lines : list (list Z)) (f : pfile),
+    parse_file lines = Some f -> wf_file n f = true ->
+    exists fs, load_file n lines = FOk fs /\ load_parsed n f [] = FOk fs.
+Proof. exact FactorMapProofs.wf_file_loads. Qed.
+Print Assumptions wf_file_loads.
+
+(** inter-object factor type: the generated in-states are {inst S r o | S in file, a in S, o <> r}, each once *)
+Theorem factor_map_exact :
+  forall (n nroot : Z) (f : pfile) (fs : fmaps),
+    wf_file n f = true -> load_parsed n f [] = FOk fs ->
+    forall (nm : fname) (m : fmap) (r a : Z),
+      fget fs nm = Some m -> fm_local m = Some false -> (1 < n)%Z ->
+      (0 <= r < nroot)%Z -> (0 <= a < n)%Z ->
+      let spec := flat_map (fun o => map (inst n r o) (sets_with f nm a)) (other_roots nroot r) in
+      yield_factor_identifier n nroot m [r; a] = FOk spec /\ NoDup spec.
+Proof. exact FactorMapProofs.factor_map_exact_inter. Qed.
+Print Assumptions factor_map_exact.
+
+Theorem factor_map_exact_members :
+  forall (n nroot : Z) (f : pfile) (nm : fname) (a r : Z) (x : finstate),
+    In x (flat_map (fun o => map (inst n r o) (sets_with f nm a)) (other_roots nroot r)) <->
+    exists St o, In St (sets_of nm f) /\ In a St /\ (0 <= o < nroot)%Z /\ o <> r /\ x = inst n r o St.
+Proof. exact FactorMapProofs.factor_map_inter_members. Qed.
+Print Assumptions factor_map_exact_members.
+
+(** intra-object factor type: {inst S r | S in file, a in S}, each once *)
+Theorem factor_map_exact_intra :
+  forall (n nroot : Z) (f : pfile) (fs : fmaps),
+    wf_file n f = true -> load_parsed n f [] = FOk fs ->
+    forall (nm : fname) (m : fmap) (r a : Z),
+      fget fs nm = Some m -> fm_local m = Some true ->
+      (0 <= r < nroot)%Z -> (0 <= a < n)%Z ->
+      yield_factor_identifier n nroot m [r; a] = FOk (map (inst_local r) (sets_with f nm a))
+      /\ NoDup (map (inst_local r) (sets_with f nm a)).
+Proof. exact FactorMapProofs.factor_map_exact_intra. Qed.
+Print Assumptions factor_map_exact_intra.
+
+Theorem factor_map_exact_intra_members :
+  forall (f : pfile) (nm : fname) (a r : Z) (x : finstate),
+    In x (map (inst_local r) (sets_with f nm a)) <->
+    exists St, In St (sets_of nm f) /\ In a St /\ x = inst_local r St.
+Proof. exact FactorMapProofs.factor_map_intra_members. Qed.
+Print Assumptions factor_map_exact_intra_members.
+
+(** the tagger's set(...): duplicate-free, same members (several active leaves) *)
+Theorem dedup_sound :
+  forall l : list finstate, NoDup (dedup l) /\ (forall x, In x (dedup l) <-> In x l).
+Proof. exact FactorMapProofs.dedup_sound. Qed.
+Print Assumptions dedup_sound.
+
+Theorem tagger_dedup :
+  forall (n nroot : Z) (fs : fmaps) (nm : fname) (acts : list uid) (d : list finstate),
+    tagger_in_states n nroot fs nm acts = FOk d ->
+    exists l, yield_all n nroot fs nm acts = FOk l /\ NoDup d /\ (forall x, In x d <-> In x l).
+Proof. exact FactorMapProofs.tagger_dedup. Qed.
+Print Assumptions tagger_dedup.
+
+(** ** Non-vacuity *)
+Import OccExample.
+
+(** a concrete state with an active unit in which all three families are non-empty satisfies the hypotheses *)
+Example cells_partition_nonvacuous :
+  cellsys_ok cs5 /\ NoDup units /\ (forall u, In u units -> In (cellof u) (cs_cells cs5))
+  /\ occ_inv list_Z_eqb list_Z_eqb (cs_cells cs5) s1 units cellof /\ active_id s1 = Some [0%Z]
+  /\ cell_veto_targets list_Z_eqb cs5 s1 = [[2%Z]; [3%Z]]
+  /\ nearby_targets list_Z_eqb cs5 s1 = [[5%Z]]
+  /\ surplus_targets s1 = [[1%Z]; [4%Z]]
+  /\ others list_Z_eqb s1 units = [[1%Z]; [2%Z]; [3%Z]; [4%Z]; [5%Z]].
+Proof.
+  split; [exact cs5_ok|]. split; [exact units_nodup|]. split; [exact cellof_valid|]. split; [exact s1_inv|].
+  vm_compute. auto 10.
+Qed.
+
+Example cells_partition_nodup_nonvacuous :
+  In [4%Z] (cell_veto_targets list_Z_eqb cs5 s1 ++ nearby_targets list_Z_eqb cs5 s1 ++ surplus_targets s1)
+  /\ ~ In [0%Z] (cell_veto_targets list_Z_eqb cs5 s1 ++ nearby_targets list_Z_eqb cs5 s1 ++ surplus_targets s1).
+Proof. vm_compute. split; [tauto|]. intros H. repeat (destruct H as [H|H]; [discriminate|]). contradiction. Qed.
+
+Example cell_bounding_same_targets_nonvacuous :
+  cell_bounding_tagger list_Z_eqb cs5 s1 = [[[0%Z]; [2%Z]]; [[0%Z]; [3%Z]]]
+  /\ bounding_targets list_Z_eqb cs5 s1 = [[2%Z]; [3%Z]].
+Proof. vm_compute. auto. Qed.
+
+Example veto_keys_consistent_nonvacuous : veto_domain list_Z_eqb cs5 = [[2%Z]; [3%Z]].
+Proof. vm_compute. reflexivity. Qed.
+
+(** a 3 x 4 x 5 torus with one neighbour layer, and a 7-ring with two layers *)
+Example cellsys_ok_decidable_nonvacuous :
+  cellsys_ok (torus_cs [3%Z; 4%Z; 5%Z] 1) /\ cellsys_ok (torus_cs [7%Z] 2).
+Proof.
+  split; apply (cellsys_ok_decidable _ list_Z_eqb list_Z_eqb_spec); vm_compute; reflexivity.
+Qed.
+
+(** the water file: two intra-object types, one inter-object pair type, one inter-object type over all six atoms *)
+Definition ex_lines : list (list Z) :=
+  map (map Z.of_nat)
+    [[35; 32; 119]%nat;                                                             (* "# w" *)
+     [91; 48; 44; 32; 49; 93; 44; 32; 72; 97; 114; 10]%nat;                         (* "[0, 1], Har\n" *)
+     [91; 49; 44; 32; 50; 93; 44; 32; 72; 97; 114; 10]%nat;                         (* "[1, 2], Har\n" *)
+     [91; 49; 44; 32; 52; 93; 44; 32; 76; 106; 10]%nat;                             (* "[1, 4], Lj\n" *)
+     [91; 48; 44; 32; 49; 44; 32; 50; 44; 32; 51; 44; 32; 52; 44; 32; 53; 93; 44; 32; 67; 10]%nat].  (* "[0, .., 5], C" *)
+Definition ex_har : fname := map Z.of_nat [72; 97; 114]%nat.
+Definition ex_lj : fname := map Z.of_nat [76; 106]%nat.
+Definition ex_file : pfile :=
+  [([0; 1], ex_har); ([1; 2], ex_har); ([1; 4], ex_lj); ([0; 1; 2; 3; 4; 5], map Z.of_nat [67]%nat)]%Z.
+
+Example wf_file_loads_nonvacuous : parse_file ex_lines = Some ex_file /\ wf_file 3 ex_file = true.
+Proof. vm_compute. auto. Qed.
+
+Definition ex_fs : fmaps := match load_parsed 3 ex_file [] with FOk fs => fs | FErr _ => [] end.
+
+Example factor_map_exact_nonvacuous :
+  load_parsed 3 ex_file [] = FOk ex_fs
+  /\ (exists m, fget ex_fs ex_lj = Some m /\ fm_local m = Some false
+                /\ yield_factor_identifier 3 3 m [1; 1]%Z = FOk [[[1; 1]; [0; 1]]; [[1; 1]; [2; 1]]]%Z)
+  /\ (exists m, fget ex_fs ex_har = Some m /\ fm_local m = Some true
+                /\ yield_factor_identifier 3 3 m [1; 1]%Z = FOk [[[1; 0]; [1; 1]]; [[1; 1]; [1; 2]]]%Z).
+Proof. vm_compute. split; [reflexivity|]. split; eexists; repeat split. Qed.
+
+Example factor_map_exact_members_nonvacuous :
+  sets_with ex_file ex_lj 1 = [[1; 4]]%Z /\ other_roots 3 1 = [0; 2]%Z /\ sets_with ex_file ex_har 1 = [[0; 1]; [1; 2]]%Z.
+Proof. vm_compute. auto. Qed.
+
+Example dedup_sound_nonvacuous :
+  exists m, fget ex_fs ex_har = Some m
+  /\ tagger_in_states 3 3 ex_fs ex_har [[1; 0]; [1; 1]; [1; 2]]%Z = FOk [[[1; 0]; [1; 1]]; [[1; 1]; [1; 2]]]%Z
+  /\ yield_all 3 3 ex_fs ex_har [[1; 0]; [1; 1]; [1; 2]]%Z
+     = FOk [[[1; 0]; [1; 1]]; [[1; 0]; [1; 1]]; [[1; 1]; [1; 2]]; [[1; 1]; [1; 2]]]%Z.
+Proof. vm_compute. eexists. repeat split. Qed.
